@@ -47,6 +47,14 @@ func verifNewTicker(t HarvestType, d time.Duration) *time.Ticker {
 	e := vTrigActive
 	vTrigMu.Unlock()
 	if e == nil {
+		vFreeTickers.Lock()
+		if vFreeTickers.on {
+			tk := &vTicker{t: t, d: d, ch: make(chan time.Time, 1)}
+			vFreeTickers.list = append(vFreeTickers.list, tk)
+			vFreeTickers.Unlock()
+			return &time.Ticker{C: tk.ch}
+		}
+		vFreeTickers.Unlock()
 		return time.NewTicker(d)
 	}
 	tk := &vTicker{t: t, d: d, ch: make(chan time.Time, 1)}
@@ -308,4 +316,41 @@ func vTrigOp(t []string) string {
 		return e.settle().String() + " got=" + strings.Join(got, ",")
 	}
 	return "bad-op"
+}
+
+// Exported hooks for engines living outside this package (harness/main/race.go).
+
+var vFreeTickers struct {
+	sync.Mutex
+	on   bool
+	list []*vTicker
+}
+
+// VerifTickersOn makes every ticker created by triggerBuilder from now on a virtual one fired by VerifFireTickers.
+func VerifTickersOn() {
+	vFreeTickers.Lock()
+	vFreeTickers.on = true
+	vFreeTickers.list = nil
+	vFreeTickers.Unlock()
+}
+
+func VerifTickersOff() {
+	vFreeTickers.Lock()
+	vFreeTickers.on = false
+	vFreeTickers.list = nil
+	vFreeTickers.Unlock()
+}
+
+// VerifFireTickers lets every virtual ticker tick once (a tick is dropped if the previous one was not taken).
+func VerifFireTickers() {
+	vFreeTickers.Lock()
+	l := append([]*vTicker(nil), vFreeTickers.list...)
+	vFreeTickers.Unlock()
+	now := time.Now()
+	for _, tk := range l {
+		select {
+		case tk.ch <- now:
+		default:
+		}
+	}
 }
